@@ -68,9 +68,9 @@ class Group:
     def blocks(self):
         return [dict(name=decl.cname(c), src=decl.py_class(c, pc)) for c, pc in sorted(self.table.items())]
 
-    def add_derive(self, c, value, seed, offsets=(), maxcuts=16, flips=3, record=False):
+    def add_derive(self, c, value, seed, offsets=(), maxcuts=16, flips=3, record=False, cut_with_prefix=False):
         self.ops.append(dict(cls=decl.cname(c), op='derive', value=jvalue(value), seed=seed, offsets=list(offsets),
-                             maxcuts=maxcuts, flips=flips, record=record, _value=value, _c=c))
+                             maxcuts=maxcuts, flips=flips, record=record, cut_with_prefix=cut_with_prefix, _value=value, _c=c))
 
     def add_unpack(self, c, raw, offset=0, record=False):
         self.ops.append(dict(cls=decl.cname(c), op='roundtrip', raw=raw.hex(), offset=offset, record=record, _c=c))
@@ -123,6 +123,7 @@ def run_groups(groups, tag='g'):
                     for d in o.get('derived', []):
                         raw = bytes.fromhex(d['raw'])
                         records.append(dict(group=g.gid, kind='roundtrip', c=c, raw=raw, offset=d['offset'], outcome=d['outcome'],
+                                            variant=d.get('variant'), source=id(op),
                                             source_value=op['_value'], source_raw=bytes.fromhex(o['packed']['ok'])))
                         lines.append(f"CRound {c} {decl.cq_bytes(raw)} {d['offset']} {cq_outcome(d['outcome'])}")
                 elif op['op'] == 'blocks':
